@@ -3,7 +3,7 @@ from hypothesis import strategies as st
 from vlib import gen, lib, oracle
 from vlib.harness import HypSub
 from vlib.lib import Violation
-from checks.c06 import model_partition
+from checks.c06 import model_partition, partition_views
 from corankco.partitioning.ordered_partition import OrderedPartition
 
 META = {
@@ -63,6 +63,7 @@ def check_parfront_one(case, ctx):
     pc = lib.must(OrderedPartition.parcons_partition, d, s)
     fgroups, fseen = model_partition(pf.partition, "ParFront partition")
     cgroups, cseen = model_partition(pc.partition, "ParCons partition")
+    partition_views(pf, "ParFront partition")
     optima = inst.all_optima(cap=3000)
     labs = ["components>=3" if len(cgroups) >= 3 else "components<3",
             "parfront_merges" if len(fgroups) != len(cgroups) else "parfront=parcons",
